@@ -192,5 +192,47 @@ Section Model.
   Definition nonbasic_ok : bool := forallb nb_ok1 nbl.
 End Model.
 
+(* ---- ILLbasis_load after the repair `basis_load_normalise` ---------------------------------------------------
+   A non-basic structural column can only sit at a bound it has ("has" = the bound differs from the sentinel): when the
+   basis is loaded, at-lower without a lower bound becomes at-upper if there is an upper bound, else free (zero);
+   at-upper without an upper bound becomes at-lower if there is a lower bound, else free; free on a column that has a
+   bound becomes at-lower if there is a lower bound, else at-upper.  Rows (logicals) and basic columns are untouched;
+   the admissibility tests of the loader look at the characters as supplied (they are invariant under this map).
+   Everything in [Section Model] above evaluates a basis AS LOADED; the verdict functions of the library are the
+   [lib_*] compositions below. *)
+Definition norm_stat (M : Q) (c : icol) (s : bstat) : bstat :=
+  let haslo := negb (Qeq_bool (ic_lo c) (- M)) in
+  let hasup := negb (Qeq_bool (ic_up c) M) in
+  match s with
+  | BLower => if haslo then BLower else if hasup then BUpper else BFree
+  | BUpper => if hasup then BUpper else if haslo then BLower else BFree
+  | BFree => if haslo then BLower else if hasup then BUpper else BFree
+  | _ => s
+  end.
+
+Fixpoint norm_from (M : Q) (P : ilp) (j : nat) (l : list bstat) : list bstat :=
+  match l with
+  | [] => []
+  | s :: t => norm_stat M (col P j) s :: norm_from M P (S j) t
+  end.
+
+Definition loaded_basis (M : Q) (P : ilp) (B : basis) : basis :=
+  {| cstat := norm_from M P 0 (cstat B); rstat := rstat B |}.
+
+(* QSexact_basis_optimalstatus / QSexact_basis_dualstatus of the library *)
+Definition lib_optimalstatus (M : Q) (P : ilp) (ns : nat) (isR : list bool) (B : basis) : verdict :=
+  basis_optimalstatus M P ns isR (loaded_basis M P B).
+Definition lib_dualstatus (M : Q) (P : ilp) (ns : nat) (isR : list bool) (B : basis) (g : Z) : verdict :=
+  basis_dualstatus M P ns isR (loaded_basis M P B) g.
+
+(* a property of the LP alone (no basis): no column has crossed finite bounds; the logical of every row has a finite
+   lower bound and, for a ranged row, a finite upper bound (this is how the library builds logicals) *)
+Definition lp_bounds_ok (M : Q) (P : ilp) (ns : nat) (isR : list bool) : bool :=
+  forallb (fun c => Qeq_bool (ic_lo c) (- M) || Qeq_bool (ic_up c) M || Qle_bool (ic_lo c) (ic_up c)) (i_cols P) &&
+  forallb (fun i => let c := col P (ns + i) in
+                    negb (Qeq_bool (ic_lo c) (- M)) && (negb (nth i isR false) || negb (Qeq_bool (ic_up c) M)))
+          (seq 0 (nrows P)).
+
 (* QSexact_verify without prestep = QSexact_basis_dualstatus *)
 Definition exact_verify_noprestep := basis_dualstatus.
+Definition lib_verify_noprestep := lib_dualstatus.
